@@ -701,6 +701,10 @@ class Engine:
             return self._stream_descr(sv)
         if isinstance(it, StreamV):
             return self._stream_descr(it.view)
+        if isinstance(it, ObjV):
+            h = self.ctx_hook('iter_obj_descr', st, it)
+            if h is not None:
+                return h
         if isinstance(it, IterV):
             raise Unsupported('for-loop over an explicit iterator')
         raise Unsupported('iteration over %r' % (it,))
@@ -1007,10 +1011,9 @@ class Engine:
 
     def module_attr(self, mod, attr):
         full = '%s.%s' % (mod.name, attr)
-        if full in ('numbers.Integral', 'collections.UserList', 'collections.abc', 'queue.Empty',
-                    'collections.abc.Generator'):
+        if full in ('numbers.Integral', 'collections.UserList', 'queue.Empty', 'collections.abc.Generator'):
             return ClassV({'numbers.Integral': 'Integral', 'queue.Empty': 'Empty'}.get(full, full))
-        if full in ('numpy.random', 'concurrent.futures', 'numpy.ndarray'):
+        if full in ('numpy.random', 'concurrent.futures', 'numpy.ndarray', 'collections.abc'):
             if full == 'numpy.ndarray':
                 return ClassV('ndarray')
             return ModuleV(full)
@@ -1025,6 +1028,10 @@ class Engine:
 
     # ---- calls
     def expr_Call(self, node, st):
+        if isinstance(node.func, ast.Attribute) and node.func.attr == 'join' \
+                and isinstance(node.func.value, ast.Constant) and isinstance(node.func.value.value, str):
+            # '<sep>'.join(...): message text, dropped (DESIGN section 1)
+            return [(st, OpaqueStrV())]
         res = []
         for st2, f in self.eval(node.func, st):
             for st3, args in self.eval_list(node.args, st2):
